@@ -27,6 +27,7 @@ Inductive act :=
 | AShutdown                          (* current().shutdown() *)
 | ARestartIn (d : N)                 (* current().shutdow_and_restart_in(d) *)
 | APanic                             (* panic!() *)
+| ASetCatch (b : bool)               (* current().set_stereotyp(Stereotyp { on_panic_catch: b, ..HOST }) *)
 | AQuiet.                            (* callbacks only, the "falls silent" counterpart of APanic: request
                                         shutdown() unless a request is already pending, return, and let every
                                         task that is polled in this event end at once without acting *)
@@ -78,9 +79,10 @@ Record task := { tk_id : N; tk_inc : N; tk_new : bool; tk_rest : prog }.
 (* ModuleContext of one module: active flag; number of resets so far; remaining budget;
    shutdown_task; Driver::next_wakeup (None = SimTime::MAX); live timer entries sorted by
    deadline (FIFO among equal deadlines); tasks woken or spawned but not yet polled (FIFO);
-   number of try_join handles that finished with a panic *)
+   number of try_join handles that finished with a panic; Stereotyp.on_panic_catch (a Cell of the
+   ModuleContext: it can be changed at any time, survives a reset, and is read by Harness::catch) *)
 Record mst := { active : bool; inc : N; bud : N; shut : option (option N);
-  nw : option N; timers : list (N * task); ready : list task; tpanics : N }.
+  nw : option N; timers : list (N * task); ready : list task; tpanics : N; catchf : bool }.
 
 (* the simulation: event set, modules, Sim::error (true = JoinError, false = PanicError),
    MOD_CTX (module context slot), BUF_CTX.events (event buffer) *)
@@ -101,25 +103,28 @@ Definition set_buf (w : world) (b : list (N * fev)) : world :=
 
 Definition set_active (x : mst) (a : bool) : mst :=
   {| active := a; inc := inc x; bud := bud x; shut := shut x; nw := nw x; timers := timers x;
-     ready := ready x; tpanics := tpanics x |}.
+     ready := ready x; tpanics := tpanics x; catchf := catchf x |}.
 Definition set_bud (x : mst) (b : N) : mst :=
   {| active := active x; inc := inc x; bud := b; shut := shut x; nw := nw x; timers := timers x;
-     ready := ready x; tpanics := tpanics x |}.
+     ready := ready x; tpanics := tpanics x; catchf := catchf x |}.
 Definition set_shut (x : mst) (s : option (option N)) : mst :=
   {| active := active x; inc := inc x; bud := bud x; shut := s; nw := nw x; timers := timers x;
-     ready := ready x; tpanics := tpanics x |}.
+     ready := ready x; tpanics := tpanics x; catchf := catchf x |}.
 Definition set_nw (x : mst) (n : option N) : mst :=
   {| active := active x; inc := inc x; bud := bud x; shut := shut x; nw := n; timers := timers x;
-     ready := ready x; tpanics := tpanics x |}.
+     ready := ready x; tpanics := tpanics x; catchf := catchf x |}.
 Definition set_timers (x : mst) (l : list (N * task)) : mst :=
   {| active := active x; inc := inc x; bud := bud x; shut := shut x; nw := nw x; timers := l;
-     ready := ready x; tpanics := tpanics x |}.
+     ready := ready x; tpanics := tpanics x; catchf := catchf x |}.
 Definition set_ready (x : mst) (l : list task) : mst :=
   {| active := active x; inc := inc x; bud := bud x; shut := shut x; nw := nw x; timers := timers x;
-     ready := l; tpanics := tpanics x |}.
+     ready := l; tpanics := tpanics x; catchf := catchf x |}.
+Definition set_catchf (x : mst) (b : bool) : mst :=
+  {| active := active x; inc := inc x; bud := bud x; shut := shut x; nw := nw x; timers := timers x;
+     ready := ready x; tpanics := tpanics x; catchf := b |}.
 Definition set_tpanics (x : mst) (n : N) : mst :=
   {| active := active x; inc := inc x; bud := bud x; shut := shut x; nw := nw x; timers := timers x;
-     ready := ready x; tpanics := n |}.
+     ready := ready x; tpanics := n; catchf := catchf x |}.
 
 (* ---- the log ---- *)
 Inductive cb :=
@@ -138,10 +143,11 @@ Inductive item :=
 | ISend (m who : N) (far : bool) (d x : N)
 | ISched (m who d x : N)
 | IShut (m who : N) (r : option N)          (* shutdown(), shutdow_and_restart_in(d) *)
-| IPanic (m who : N)                        (* about to panic *)
+| IPanic (m who : N) (c : bool)             (* about to panic; c = on_panic_catch of the module right now *)
 | IQuiet (m : N)
 | ICancel (m id : N)                        (* the future of task id was dropped unfinished *)
-| ISample (t mask : N).                     (* after a dispatched event: time, is_active of all modules *)
+| ISample (t mask : N)                      (* after a dispatched event: time, is_active of all modules *)
+| ISetCatch (m who : N) (b : bool).         (* set_stereotyp(on_panic_catch := b) *)
 
 Record xs := { x_w : world; x_log : list item }.
 Definition say (i : item) (s : xs) : xs := {| x_w := x_w s; x_log := x_log s ++ [i] |}.
@@ -183,6 +189,7 @@ Definition do_act (k now m who : N) (a : act) (s : xs) : xs :=
       say (IShut m who None) (on_w (fun w => request m None (spend m w)) s)
   | ARestartIn d => if broke m s then s else
       say (IShut m who (Some d)) (on_w (fun w => request m (Some (now + d)) (spend m w)) s)
+  | ASetCatch b => say (ISetCatch m who b) (on_w (fun w => set_mod w m (set_catchf (w_mod w m) b)) s)
   | ASleep _ | APanic | AQuiet => s
   end.
 
@@ -196,7 +203,7 @@ Inductive res := RDone | RPanic | RQuiet | RSleep (d : N) (rest : prog).
 Fixpoint run_prog (is_task : bool) (k now m who : N) (p : prog) (s : xs) : xs * res :=
   match p with
   | [] => (s, RDone)
-  | APanic :: _ => (say (IPanic m who) s, RPanic)
+  | APanic :: _ => (say (IPanic m who (catchf (w_mod (x_w s) m))) s, RPanic)
   | AQuiet :: r => if is_task then run_prog is_task k now m who r s else (quiet m s, RQuiet)
   | ASleep d :: r => if is_task && (0 <? d) then (s, RSleep d r) else run_prog is_task k now m who r s
   | a :: r => run_prog is_task k now m who r (do_act k now m who a s)
@@ -244,11 +251,11 @@ Definition exec (k now m : N) (c : cb) (spawn : list prog) (p : prog) (s : xs) :
   | _ => (poll_ready k now m s2, false)
   end.
 
-(* Harness::catch.  Result: was an error returned? *)
+(* Harness::catch: the stereotype is read now, after the callback.  Result: was an error returned? *)
 Definition catch (c : modcfg) (m : N) (panicked : bool) (w : world) : world * bool :=
   if panicked then
     let w1 := set_mod w m (set_active (w_mod w m) false) in
-    if c_catch c then (w1, false) else (set_err w1 (w_err w1 ++ [(false, m)]), true)
+    if catchf (w_mod w m) then (w1, false) else (set_err w1 (w_err w1 ++ [(false, m)]), true)
   else (w, false).
 
 (* ---- refs.rs ---- *)
@@ -295,7 +302,7 @@ Definition shutdown_part (c : modcfg) (now m : N) (w : world) : world * list ite
   | None => (w, [])
   | Some r =>
     let x1 := {| active := false; inc := inc x + 1; bud := bud x; shut := None; nw := nw_bump now (nw x);
-                 timers := []; ready := []; tpanics := tpanics x |} in
+                 timers := []; ready := []; tpanics := tpanics x; catchf := catchf x |} in
     let w2 := set_mod w m x1 in
     (match r with Some t => set_fes w2 (fes_add t (EvRestart m) (w_fes w2)) | None => w2 end,
      cancelled m c x ++ [IReset m now (inc x + 1)])
@@ -435,7 +442,8 @@ Definition loop_step (sc : script) (st : lstate) : lstate + lstate :=
   end.
 
 Definition mst0 (c : modcfg) : mst :=
-  {| active := true; inc := 0; bud := c_bud c; shut := None; nw := None; timers := []; ready := []; tpanics := 0 |}.
+  {| active := true; inc := 0; bud := c_bud c; shut := None; nw := None; timers := []; ready := []; tpanics := 0;
+     catchf := c_catch c |}.
 
 Definition init_world (sc : script) : world :=
   {| w_fes := fes_flush (map (fun p => (fst p, inj_ev (snd p))) (s_inj sc)) {| f_tcur := 0; f_zero := []; f_rest := [] |};
@@ -486,9 +494,9 @@ Definition quieten (m : N) (sc : script) : script :=
                                                       variant "module v-1 falls silent instead of panicking" is run as well
    mod    := catch stages bud  progs progs progs  lp(end)      catch odd = panics are caught; stages' = 1 + stages mod 3
    progs  := n lp(prog){n}                            start programs, message programs, tasks
-   prog   := (op a b c)*                              op mod 8: 0 log c | 1 send(far = a odd, delay b, payload c)
+   prog   := (op a b c)*                              op mod 10: 0 log c | 1 send(far = a odd, delay b, payload c)
                                                       | 2 schedule(delay b, payload c) | 3 sleep b | 4 shutdown
-                                                      | 5 restart_in b | 6 panic | 7 quiet
+                                                      | 5 restart_in b | 6 panic | 7 quiet | 8 catch panics | 9 do not
    inj    := kind m time payload                      kind mod 3: 0 handle_message_on(m) | 1 add_message_onto(m.out)
                                                       | 2 add_message_onto(m.far);   m mod k' *)
 Definition nxt (l : list N) : N * list N := match l with [] => (0, []) | x :: r => (x, r) end.
@@ -496,10 +504,10 @@ Definition nxt (l : list N) : N * list N := match l with [] => (0, []) | x :: r 
 Fixpoint quads (l : list N) : prog :=
   match l with
   | o :: a :: b :: c :: r =>
-    (let o := o mod 8 in
+    (let o := o mod 10 in
      if o =? 0 then ALog c else if o =? 1 then ASend (N.odd a) b c else if o =? 2 then ASched b c
      else if o =? 3 then ASleep b else if o =? 4 then AShutdown else if o =? 5 then ARestartIn b
-     else if o =? 6 then APanic else AQuiet) :: quads r
+     else if o =? 6 then APanic else if o =? 7 then AQuiet else ASetCatch (o =? 8)) :: quads r
   | _ => []
   end.
 
@@ -556,10 +564,11 @@ Definition enc_item (i : item) : list N :=
   | ISched m who d x => [9; m; who; d; x]
   | IShut m who None => [10; m; who; 0; 0]
   | IShut m who (Some d) => [10; m; who; 1; d]
-  | IPanic m who => [11; m; who; 0; 0]
+  | IPanic m who c => [11; m; who; b2n c; 0]
   | IQuiet m => [12; m; 0; 0; 0]
   | ICancel m id => [13; m; id; 0; 0]
   | ISample t k => [14; t; k; 0; 0]
+  | ISetCatch m who b => [19; m; who; b2n b; 0]
   end.
 
 Definition enc_err (e : bool * N) : list N := [15; b2n (fst e); snd e; 0; 0].
